@@ -223,7 +223,7 @@ package types
 //@   ensures [signer-address-kept] err == nil ==> val(p.Signer.Address) == val(sh.Signer.Address)
 
 //@ func (sh *SignedHeader) FromProto(other) (err)
-//@   property C12 C09
+//@   property C12 C09 C03
 //@   nopanic
 //@   modifies sh.*
 //@   ensures [rejects-nil] other == nil || other.Header == nil ==> err != nil
@@ -243,7 +243,7 @@ package types
 //@   ensures [signer-address-kept] err == nil ==> val(p.Signer.Address) == val(sd.Signer.Address)
 
 //@ func (sd *SignedData) FromProto(other) (err)
-//@   property C12 C09
+//@   property C12 C09 C03
 //@   nopanic
 //@   modifies sd.*, heap "types.Metadata.ChainID", heap "types.Metadata.Height", heap "types.Metadata.Time", heap "types.Metadata.LastDataHash"
 //@   ensures [rejects-nil] other == nil ==> err != nil
